@@ -14,4 +14,7 @@ pub fn run(ctx: &mut Ctx) {
     drive(ctx, Prop::C10, "hist-near-8192", n, Mix { error_sixteenths: 2, max_steps: 5, big_start: false, near_limit: 8192, want: Prop::C10 });
     let n = ctx.scaled(if ctx.tier == "thorough" { 8_000 } else { 320 });
     drive(ctx, Prop::C10, "hist-near-65535", n, Mix { error_sixteenths: 2, max_steps: 4, big_start: false, near_limit: 65535, want: Prop::C10 });
+    // accepted packets that are already larger than 65535 bytes: nothing may grow, everything may shrink
+    let n = ctx.scaled(if ctx.tier == "thorough" { 4_000 } else { 160 });
+    drive(ctx, Prop::C10, "hist-above-65535", n, Mix { error_sixteenths: 2, max_steps: 4, big_start: false, near_limit: 70000, want: Prop::C10 });
 }
